@@ -21,7 +21,7 @@ RULE = ("random removal-enabled temporal graphs of both classes (3-6 nodes, <= 7
 MIN = {"quick": {"dag:acyclic": 20000, "edge:sound": 100000, "sources==expected": 20000, "invalid-window": 4000},
        "thorough": {"dag:acyclic": 400000, "edge:sound": 2000000, "sources==expected": 400000, "invalid-window": 80000}}
 REQUIRED_CELLS = {t: ("class:DynGraph", "class:DynDiGraph", "ids:int", "ids:str", "window:inside", "window:default",
-                      "invalid:start<first", "invalid:end>last", "invalid:start>end", "empty-graph")
+                      "invalid:start<first", "invalid:end>last", "invalid:start>end", "empty-graph", "second-life", "long-timeline")
                   for t in ("quick", "thorough")}
 
 
@@ -142,6 +142,17 @@ def run(ctx, dn):
         G, m, nodes, pres = _paths.random_temporal_graph(rng, dn, strings=strings, p_loop=0.15)
         ctx.case = dict(workload="RND-GRAPHS", directed=m.directed, presence=pres)
         one_graph(ctx, dn, G, m, nodes, strings, False)
+        if k % 9 == 4:
+            G, m, nodes, pres = _paths.long_pair_graph(rng, dn, strings=strings)
+            ctx.case = dict(workload="LONG-PAIR", directed=m.directed, presence=pres)
+            ctx.cell("long-timeline")
+            one_graph(ctx, dn, G, m, nodes, strings, False)
+        if k % 5 == 1:
+            m2 = _paths.refill_after_clear(rng, dn, G, m)
+            ctx.case = dict(workload="SECOND-LIFE", directed=m.directed, first_life=pres,
+                            presence={repr(kk): sorted(v) for kk, v in m2.P.items()})
+            ctx.cell("second-life")
+            one_graph(ctx, dn, G, m2, list(m2.nodes), strings, False)
         if k < 3:
             ctx.sample(ctx.case)
         k += 1
